@@ -277,9 +277,17 @@ func (w *World) PK(form map[string]int, variant int) crypto.PublicKey {
 			return pk
 		}
 	}
-	switch variant % 6 {
+	switch variant % 7 {
 	case 0:
 		return w.SK(s).PublicKey()
+	case 6: // s = h - (-h) with h = s/2: a removal whose subtraction is a doubling
+		half := new(big.Int).Mul(s, new(big.Int).ModInverse(big.NewInt(2), ref.R))
+		half.Mod(half, ref.R)
+		pk, err := crypto.RemoveBLSPublicKeys(w.SK(half).PublicKey(), []crypto.PublicKey{w.SK(new(big.Int).Sub(ref.R, half)).PublicKey()})
+		if err != nil {
+			panic(err)
+		}
+		return pk
 	case 4, 5: // the public key of an aggregated private key; case 5: the inputs' public keys were computed before
 		a := w.Scalar("split")
 		b := new(big.Int).Mod(new(big.Int).Sub(s, a), ref.R)
@@ -287,7 +295,7 @@ func (w *World) PK(form map[string]int, variant int) crypto.PublicKey {
 			return w.SK(s).PublicKey()
 		}
 		ka, kb := w.SK(a), w.SK(b)
-		if variant%6 == 5 {
+		if variant%7 == 5 {
 			_, _ = ka.PublicKey(), kb.PublicKey()
 		}
 		sk, err := crypto.AggregateBLSPrivateKeys([]crypto.PrivateKey{ka, kb})
